@@ -271,6 +271,10 @@ fn apply_patch(sp: &SProblem, sol: &Value, m: &Value) -> (SProblem, Value) {
     if let Some(rel) = m.get("rel") {
         sp.relations = serde_json::from_value(rel.clone()).unwrap();
     }
+    // "res": the list of shared resources of the problem is replaced
+    if let Some(res) = m.get("res") {
+        sp.resources = serde_json::from_value(res.clone()).unwrap();
+    }
     (sp, sol)
 }
 
@@ -326,7 +330,7 @@ fn restrict_problem(rng: &mut Rng, sp: &mut SProblem) {
 
 fn feature_cfg(rng: &mut Rng, i: usize) -> GenCfg {
     let mut c = GenCfg::random(rng);
-    // shared reload resources are outside the checker model (its resource rule is not modelled): not generated here
+    // shared reload resources: only in the streams that ask for them (slot 0 below and the resource stream)
     c.shared_resources = false;
     c.jobs = (4, 11);
     c.compat = false;
@@ -336,6 +340,7 @@ fn feature_cfg(rng: &mut Rng, i: usize) -> GenCfg {
         0 => {
             c.reloads = true;
             c.multi_jobs = false;
+            c.shared_resources = true;
         }
         1 => {
             c.breaks = true;
@@ -496,6 +501,128 @@ fn stop_loads_max(t: &Value, d: usize) -> i64 {
 
 fn tour_job_activity_count(t: &Value) -> usize {
     t["stops"].as_array().unwrap().iter().map(|s| acts_of(s).len()).sum()
+}
+
+
+// ---------------------------------------------------------------------------------------------------
+// shared reload resources: what a solution draws (computed from the documents, independently of the checker)
+
+/// the reload place (of the tour's shift, by location and tag) a reload activity refers to
+fn reload_place<'a>(sp: &'a SProblem, t: &Value, stop: &Value, a: &Value) -> Option<&'a SPlace> {
+    let vt = vehicle_type_index(sp, t["vehicleId"].as_str()?)?;
+    let shift = sp.vehicles[vt].shifts.get(t["shiftIndex"].as_u64()? as usize)?;
+    let loc = a.get("loc").and_then(|l| l.as_u64()).or_else(|| stop["loc"].as_u64())? as usize;
+    let tag = a.get("tag").and_then(|t| t.as_str());
+    shift.reloads.iter().find(|r| r.loc == loc && r.tag.as_deref() == tag)
+}
+
+/// demand of a delivery activity whose goods are loaded at the start of the reload interval (job without pickups)
+fn static_delivery_demand(sp: &SProblem, a: &Value) -> Option<Vec<i64>> {
+    if a["type"] != "delivery" {
+        return None;
+    }
+    let job = sp.jobs.iter().find(|j| j.id == a["jobId"].as_str().unwrap_or(""))?;
+    if job.tasks.iter().any(|t| t.kind == "pickup") {
+        return None;
+    }
+    let task = if job.tasks.len() < 2 {
+        job.tasks.first()?
+    } else {
+        let tag = a.get("tag").and_then(|t| t.as_str());
+        job.tasks.iter().filter(|t| t.kind == "delivery").find(|t| t.places.iter().any(|p| p.tag.as_deref() == tag))?
+    };
+    Some(task.demand.clone())
+}
+
+/// what all tours together load at the reloads drawing on one resource
+#[derive(Default, Clone)]
+struct Draw {
+    /// per dimension
+    total: Vec<i64>,
+    /// number of reload intervals drawing on the resource, and the tours they belong to
+    intervals: usize,
+    tours: BTreeSet<usize>,
+}
+
+/// per resource id: what all tours together load at reloads drawing on it, per dimension (`dims` entries)
+fn resource_draws(sp: &SProblem, sol: &Value, dims: usize) -> BTreeMap<String, Draw> {
+    let mut out = BTreeMap::<String, Draw>::new();
+    for (ti, t) in sol["tours"].as_array().unwrap().iter().enumerate() {
+        let stops = t["stops"].as_array().unwrap();
+        let mut current: Option<String> = None;
+        for (si, s) in stops.iter().enumerate() {
+            let acts = acts_of(s);
+            // a stop whose first activity is a reload opens a new interval unless it is the last stop
+            if si + 1 < stops.len() && acts.first().is_some_and(|a| a["type"] == "reload") {
+                current = reload_place(sp, t, s, &acts[0]).and_then(|r| r.resource.clone());
+                if let Some(id) = current.as_ref() {
+                    let e = out.entry(id.clone()).or_insert_with(|| Draw { total: vec![0; dims], ..Draw::default() });
+                    e.intervals += 1;
+                    e.tours.insert(ti);
+                }
+            }
+            if let Some(id) = current.as_ref() {
+                for a in acts.iter() {
+                    if let Some(d) = static_delivery_demand(sp, a) {
+                        let e = out.get_mut(id).unwrap();
+                        for (k, x) in d.iter().enumerate().take(dims) {
+                            e.total[k] += x;
+                        }
+                    }
+                }
+            }
+        }
+    }
+    out
+}
+
+/// mutants of the shared resource rule: patches of `resources` in the PROBLEM only (nothing else changes)
+fn resource_mutants(sp: &SProblem, sol: &Value, push: &mut dyn FnMut(&str, String, Value)) {
+    let dims = sp.vehicles[0].capacity.len();
+    let draws = resource_draws(sp, sol, dims);
+    for (id, draw) in draws.iter() {
+        let drawn = &draw.total;
+        let Some(ri) = sp.resources.iter().position(|r| r.0 == *id) else { continue };
+        let with_cap = |cap: Vec<i64>| {
+            let mut r = sp.resources.clone();
+            r[ri].1 = cap;
+            json!({"res": r})
+        };
+        // boundary that is still valid: the resource holds exactly what is drawn
+        push("resource_exact", id.clone(), with_cap(drawn.clone()));
+        // overdrawn in every dimension
+        if drawn.iter().all(|x| *x >= 1) {
+            push("resource_overdrawn", id.clone(), with_cap(drawn.iter().map(|x| x - 1).collect()));
+        }
+        // overdrawn in ONE dimension only, the others exactly at / above what is drawn
+        if dims >= 2 {
+            for d in 0..dims {
+                if drawn[d] >= 1 {
+                    let mut exact = drawn.clone();
+                    exact[d] -= 1;
+                    push("resource_overdrawn_one_dim", format!("{id}.d{d}.exact"), with_cap(exact));
+                    let mut roomy: Vec<i64> = drawn.iter().map(|x| x + 2).collect();
+                    roomy[d] = drawn[d] - 1;
+                    push("resource_overdrawn_one_dim", format!("{id}.d{d}.roomy"), with_cap(roomy));
+                }
+            }
+        }
+        // the resource a reload draws on is not defined by the problem
+        let mut r = sp.resources.clone();
+        r.remove(ri);
+        push("resource_undefined", id.clone(), json!({"res": r}));
+    }
+}
+
+/// the solution serves at least one reload that draws on a shared resource
+fn uses_shared_resource(sp: &SProblem, sol: &Value) -> bool {
+    !resource_draws(sp, sol, sp.vehicles[0].capacity.len()).is_empty()
+}
+
+/// (most reload intervals drawing on one resource, most tours drawing on one resource)
+fn shared_resource_sharing(sp: &SProblem, sol: &Value) -> (usize, usize) {
+    let draws = resource_draws(sp, sol, sp.vehicles[0].capacity.len());
+    (draws.values().map(|d| d.intervals).max().unwrap_or(0), draws.values().map(|d| d.tours.len()).max().unwrap_or(0))
 }
 
 fn mutants(rng: &mut Rng, sp: &SProblem, sol: &Value) -> Vec<Value> {
@@ -727,6 +854,9 @@ fn mutants(rng: &mut Rng, sp: &SProblem, sol: &Value) -> Vec<Value> {
             }
         }
     }
+
+    // --- shared reload resources (patch of the problem)
+    resource_mutants(sp, sol, &mut push);
 
     // --- unassigned list
     let un = sol["unassigned"].as_array().cloned().unwrap_or_default();
@@ -1224,6 +1354,71 @@ fn prepare_split_problem(rng: &mut Rng, sp: &mut SProblem) {
     }
 }
 
+/// problems for the shared resource stream: every shift reloads at places that draw on a shared resource
+fn resource_cfg(rng: &mut Rng) -> GenCfg {
+    let mut c = GenCfg::basic();
+    c.jobs = (8, 13);
+    c.types = (1, 2);
+    c.vehicles_per_type = (1, 2);
+    c.reloads = true;
+    c.shared_resources = true;
+    c.multi_dim = rng.chance(1, 2);
+    c.multi_jobs = rng.chance(1, 3);
+    c.tags = c.multi_jobs;
+    c.multi_shift = rng.chance(1, 5);
+    c.breaks = rng.chance(1, 6);
+    c.alt_places = false;
+    c
+}
+
+fn prepare_resource_problem(rng: &mut Rng, sp: &mut SProblem) {
+    let dims = sp.vehicles[0].capacity.len();
+    // most goods are deliveries (they are what a reload loads) ...
+    for j in sp.jobs.iter_mut().filter(|j| j.tasks.len() == 1) {
+        if j.tasks[0].kind != "delivery" && rng.chance(2, 3) {
+            j.tasks[0].kind = "delivery".into();
+        }
+        if j.tasks[0].kind == "delivery" && j.tasks[0].demand.iter().all(|d| *d == 0) {
+            j.tasks[0].demand = (0..dims).map(|_| rng.range(1, 3)).collect();
+        }
+    }
+    // ... and the vehicles are small, so that a tour reloads more than once and several tours reload
+    for v in sp.vehicles.iter_mut() {
+        let base = rng.range(4, 6);
+        v.capacity = (0..dims).map(|_| base + rng.range(0, 2)).collect();
+        v.tour_size = None;
+    }
+    let two = sp.vehicles.len() >= 2 && rng.chance(1, 3);
+    for (vi, v) in sp.vehicles.iter_mut().enumerate() {
+        // the second vehicle type may draw on a resource of its own
+        let id = if two && vi >= 1 { "res1" } else { "res0" };
+        for shift in v.shifts.iter_mut() {
+            if shift.reloads.is_empty() {
+                shift.reloads.push(SPlace { loc: shift.start_loc, dur: rng.range(0, 20), tws: vec![], tag: Some("rl0".into()), resource: None });
+            }
+            // one problem in four keeps a reload place that draws on nothing
+            let keep_free = rng.chance(1, 4);
+            for r in shift.reloads.iter_mut() {
+                r.resource = if keep_free && r.resource.is_none() { None } else { Some(id.to_string()) };
+            }
+            if shift.reloads.iter().all(|r| r.resource.is_none()) {
+                shift.reloads[0].resource = Some(id.to_string());
+            }
+        }
+    }
+    // capacity of a resource: between one vehicle load and everything there is to deliver (binding / loose)
+    let total: Vec<i64> = (0..dims)
+        .map(|d| sp.jobs.iter().flat_map(|j| j.tasks.iter()).filter(|t| t.kind == "delivery").map(|t| t.demand.get(d).copied().unwrap_or(0)).sum())
+        .collect();
+    let used: BTreeSet<String> =
+        sp.vehicles.iter().flat_map(|v| v.shifts.iter()).flat_map(|s| s.reloads.iter()).filter_map(|r| r.resource.clone()).collect();
+    sp.resources.clear();
+    for id in used {
+        let cap: Vec<i64> = (0..dims).map(|d| rng.range(sp.vehicles[0].capacity[d], total[d].max(sp.vehicles[0].capacity[d]))).collect();
+        sp.resources.push((id, cap));
+    }
+}
+
 fn gen_cases(rng: &mut Rng, tier: Tier) -> Vec<Value> {
     let n = if tier == Tier::Thorough { 600 } else { 44 };
     let probe = std::env::var("C12_PROBE").is_ok();
@@ -1234,14 +1429,17 @@ fn gen_cases(rng: &mut Rng, tier: Tier) -> Vec<Value> {
     let mut skipped = BTreeMap::<String, usize>::new();
     // second stream: problems made for clean structural splits (two shifts of one vehicle, multi-task jobs)
     let n_split = if tier == Tier::Thorough { 200 } else { 16 };
+    // third stream: problems whose reloads draw on shared resources; only solutions that serve such a reload are kept
+    let n_res = if tier == Tier::Thorough { 150 } else { 10 };
     let mut clean_why = BTreeMap::<String, usize>::new();
     let mut clean_count = BTreeMap::<String, usize>::new();
     let mut i = 0;
     let mut attempts = 0;
-    while cases.len() < n + n_split && attempts < (n + n_split) * 4 {
+    while cases.len() < n + n_split + n_res && attempts < (n + n_split + n_res) * 4 {
         attempts += 1;
-        let split_stream = cases.len() >= n;
-        let cfg = if split_stream { split_cfg(rng) } else { feature_cfg(rng, i) };
+        let res_stream = cases.len() >= n + n_split;
+        let split_stream = cases.len() >= n && !res_stream;
+        let cfg = if res_stream { resource_cfg(rng) } else if split_stream { split_cfg(rng) } else { feature_cfg(rng, i) };
         let mut sp = gen_problem(rng, &cfg);
         let raw = std::env::var("C12_PROBE").map(|v| v == "raw").unwrap_or(false);
         if !raw {
@@ -1249,6 +1447,9 @@ fn gen_cases(rng: &mut Rng, tier: Tier) -> Vec<Value> {
         }
         if split_stream {
             prepare_split_problem(rng, &mut sp);
+        }
+        if res_stream {
+            prepare_resource_problem(rng, &mut sp);
         }
         let generations = *rng.pick(&[3usize, 10, 30]);
         // (same vehicle other shift, other vehicle) clean splits kept per case; their random choices do not advance `rng`
@@ -1298,6 +1499,15 @@ fn gen_cases(rng: &mut Rng, tier: Tier) -> Vec<Value> {
             }
             continue;
         }
+        if res_stream && !uses_shared_resource(&sp, &sol) {
+            *skipped.entry("shared_resource_unused".into()).or_default() += 1;
+            continue;
+        }
+        // the first half of the stream: a resource that is really shared (two or more reload intervals draw on it)
+        if res_stream && cases.len() - n - n_split < n_res / 2 && shared_resource_sharing(&sp, &sol).0 < 2 {
+            *skipped.entry("shared_resource_drawn_once".into()).or_default() += 1;
+            continue;
+        }
         i += 1;
         if rng.chance(1, 2) {
             sp.relations = derive_relations(rng, &sp, &sol);
@@ -1311,7 +1521,9 @@ fn gen_cases(rng: &mut Rng, tier: Tier) -> Vec<Value> {
             *clean_count.entry(m["cls"].as_str().unwrap().to_string()).or_default() += 1;
             muts.push(m);
         }
-        cases.push(json!({"k": "solution", "stream": if split_stream { "split" } else { "features" }, "gens": generations,
+        let stream = if res_stream { "resources" } else if split_stream { "split" } else { "features" };
+        cases.push(json!({"k": "solution", "stream": stream, "gens": generations, "shared_resource_used": uses_shared_resource(&sp, &sol),
+                          "shared_resource_sharing": json!(shared_resource_sharing(&sp, &sol)),
                           "sp": sp, "sol": sol, "muts": muts}));
     }
     if probe || std::env::var("C12_STATS").is_ok() {
